@@ -77,6 +77,34 @@ static void run_delay(Json& js, vh::Rng& rng, long budget, bool every_shift) {
     }
 }
 
+// delayseq over the complete shift range of short arrays: every d from well below -len to well above +len (integer data; TLC
+// recomputes the shifted sequence)
+static void run_shift(Json& js, vh::Rng& rng) {
+    for (int len = 1; len <= 9; ++len) {
+        for (int d = -len - 3; d <= len + 3; ++d) {
+            std::vector<long> xr(len), xi(len), yr, yi;
+            arr_real a(len);
+            arr_cmplx c(len);
+            for (int i = 0; i < len; ++i) {
+                xr[i] = rng.range(1, 9), xi[i] = rng.range(-9, -1);
+                a[i] = (double)xr[i], c[i] = cmplx_t((double)xr[i], (double)xi[i]);
+            }
+            // (real arrays only: delayseq does not instantiate for complex ones)
+            arr_real ya;
+            const char* o = vh::outcome([&] { ya = delayseq(a, d); });
+            bool agree = true;
+            for (int i = 0; i < ya.size(); ++i) {
+                yr.push_back((long)ya[i]), yi.push_back(0);
+                agree = agree && ya[i] == std::floor(ya[i]);
+            }
+            for (int i = 0; i < len; ++i) {
+                xi[i] = 0;
+            }
+            js.begin("Shift").num("d", d).str("o", o).arr("xr", xr).arr("xi", xi).arr("yr", yr).arr("yi", yi).boolean("agree", agree).end();
+        }
+    }
+}
+
 static void run_peakloc(Json& js, vh::Rng& rng, long budget) {
     for (long t = 0; t < budget; ++t) {
         const int n = (int)rng.range(3, 40);
@@ -188,6 +216,26 @@ static void run_detector(Json& js, vh::Rng& rng, long budget, bool all_offsets) 
                 }
             }
             PreambleDetector det(href, thr);
+            // every third detector has been used before: an earlier stream (loud noise and a partial preamble at its end), then
+            // reset() - after which it must behave like a new one
+            static long reuse = 0;
+            if (++reuse % 3 == 0) {
+                const int pf = (int)rng.range(1, 3);
+                arr_cmplx past(pf * F);
+                for (int i = 0; i < past.size(); ++i) {
+                    past[i] = cmplx_t(3 * amp * rng.gauss(), 3 * amp * rng.gauss());
+                }
+                for (int i = 0; i < Lp - 1 && i < past.size(); ++i) {
+                    past[past.size() - 1 - i] = h[Lp - 2 - i] * amp;   // all but the last preamble sample, ending with the stream
+                }
+                for (int f = 0; f < pf; ++f) {
+                    try {
+                        (void)det.process(arr_cmplx(past.slice(f * F, (f + 1) * F)));
+                    } catch (const std::exception&) {
+                    }
+                }
+                det.reset();
+            }
             long det_frame = -1, det_off = -1, match = -2, plen = 0, nthrow = 0;
             double score = 0;
             for (int f = 0; f < nframes; ++f) {
@@ -326,6 +374,7 @@ int main(int argc, char** argv) {
     } else if (mode == "seq") {
         run_seq(js, rng, budget);
     } else if (mode == "peakloc") {
+        run_shift(js, rng);
         run_peakloc(js, rng, budget);
     } else if (mode == "detector") {
         run_detector(js, rng, budget, false);
